@@ -51,7 +51,9 @@ TRUSTED = [
     'MIP extract_surfaces_list (order of the surfaces of the cell card) is '
     'not modelled: the model takes its output; covered by the sweep only',
     'binary64 rounding, numpy matmul evaluation order and x**2 vs x*x: '
-    'absorbed by the 1e-9 scaled tolerance of the numeric ties',
+    'absorbed by the 1e-9 scaled tolerance of the numeric ties; unit cells '
+    'whose reciprocal vectors are linearly dependent AND not dyadic are not '
+    'compared (both sides divide by rounding noise)',
     'harness: generators (c06_gen.py), mcnpref reference semantics, t4eval, '
     'impl.T4File reader, PEG shim replacing TatSu, the run-time wrapper '
     'around CellConversion.develop_lattice',
@@ -847,6 +849,19 @@ def direct_ties(res, rng, quick):
             continue
         if rec[0] == 'ok' and max(abs(x) for v in rec[1] for x in v) > 1e6:
             continue
+        # linearly dependent reciprocal vectors with non-dyadic components:
+        # the code's den = a*b - c**2 and the model's a*b - c*c are both
+        # rounding noise (libm pow(c, 2) may differ from c*c by an ulp), one
+        # side may divide by an exact zero and the other by 1e-18.  Not
+        # comparable; the exact-zero branches are tied on dyadic inputs.
+        if rec[0] == 'ok' and len(rec[1]) > 1:
+            sing = np.linalg.svd(np.array(rec[1]), compute_uv=False)
+            exact = all(float(x * 1024).is_integer()
+                        for v in rec[1] for x in v)
+            if sing[-1] < 1e-9 * sing[0] and not exact:
+                res.count('unit_cell:dependent non-dyadic reciprocal '
+                          'vectors (not compared)')
+                continue
         csurfs = clist(csurf(s) for s in surfaces)
         rcases.append(cpair(csurfs, cvecs(rec)))
         bcases.append(cpair(csurfs, cvecs(bas)))
@@ -953,6 +968,12 @@ def deck_stream(res, rng, quick):
                               found_input=False)
                 continue
             case, problems = develop_case(rec)
+            if fault == 'parallel_pairs':
+                # linearly dependent reciprocal vectors: the determinant is
+                # rounding noise on both sides (see direct_ties), the outcome
+                # (ZeroDivisionError or garbage) is not comparable
+                res.count('develop: parallel pairs (not compared)')
+                continue
             cases.append(case)
             metas.append({'deck': text, 'args': args, 'fault': fault,
                           'out': repr(rec['out'])[:600]})
